@@ -22,6 +22,17 @@ def _prod(shape):
 
 
 # ------------------------------------------------------------------------------------------
+
+def _mk_arr(xp):
+    """array constructor for component values: float arrays, but complex values (complex step in a float replay) are kept"""
+    def f(a):
+        if xp is np:
+            r = np.array(a)
+            return r if np.iscomplexobj(r) else r.astype(float)
+        return xp.array(a, dtype=float)
+    return f
+
+
 class PolySpec:
     """outs[o][k] = sum_t coef_t * prod_f var_f[idx_f]**pow_f  (/ prod den factors)
     terms[o] = list over flat output elements of list of (coef, [(var, idx, pow), ...], [(var, idx), ...])
@@ -211,7 +222,7 @@ class PolyComp(om.ExplicitComponent):
         vals = {n: inputs[n] for n in self._s.ins}
         if getattr(self, '_probe', None) is not None:
             self._probe.append({self.pathname + '.' + n: v.copy() for n, v in vals.items()})
-        for o, v in self._s.evaluate(vals, lambda a: self._xp.array(a, dtype=float)).items():
+        for o, v in self._s.evaluate(vals, _mk_arr(self._xp)).items():
             outputs[o] = v
 
     def compute_partials(self, inputs, J):
@@ -254,7 +265,7 @@ class PolyImp(om.ImplicitComponent):
         return vals
 
     def apply_nonlinear(self, inputs, outputs, residuals):
-        for o, v in self._s.evaluate(self._vals(inputs, outputs), lambda a: self._xp.array(a, dtype=float)).items():
+        for o, v in self._s.evaluate(self._vals(inputs, outputs), _mk_arr(self._xp)).items():
             residuals[o] = v
 
     def linearize(self, inputs, outputs, J):
@@ -458,7 +469,7 @@ class Prog:
         out = dict(vals)
         exp_in = {}
         resid = {}
-        arr = (lambda a: ctx.array(a)) if ctx.sym else (lambda a: np.array(a, dtype=float))
+        arr = (lambda a: ctx.array(a)) if ctx.sym else _mk_arr(np)
         for it in self.items:
             if it[0] != 'comp':
                 continue
